@@ -281,6 +281,39 @@ def run(ctx):
     wom = M.Fn(cli.mir_fn("blots::write_outputs"), "blots::write_outputs")
     for b in wom.calls_matching(lambda d: d.startswith("serde_json::ser::to_string")):
         ctx.inst("C19.R2", "write_outputs#serialized-type", wom.term(b)["argtys"][0].lstrip("&").startswith("indexmap::map::IndexMap<"), wom.term(b)["argtys"][0], wom.loc(b))
+    # every serialiser call of write_outputs is handed the IndexMap itself (to_string, to_writer, to_vec ..); a serde_json::Value / Map built
+    # from it on the way is key-sorted unless serde_json has preserve_order
+    feats2 = set().union(*[set(fs_) for fs_ in (c06.serde_json_features(ctx.metadata) or {}).values()] or [set()])
+    n_ser = 0
+    for b in wom.call_blocks():
+        c_ = wom.callee(b) or ""
+        if re.match(r"^serde_json::ser::to_(string|writer|vec)(_pretty)?", c_):
+            n_ser += 1
+            aty = (wom.term(b).get("argtys") or [""])[-1 if "to_writer" in c_ else 0]
+            ctx.inst("C19.R2", "write_outputs#%s-type" % H.last(c_.split("::<")[0]), aty.lstrip("&").startswith("indexmap::map::IndexMap<"), "%s is handed %s" % (c_.split("::<")[0], aty), wom.loc(b))
+        if re.search(r"FromIterator<.*> for serde_json::(value::Value|map::Map)", c_) or re.search(r"serde_json::(value::Value|map::Map<.*>) as core::iter::traits::collect::(FromIterator|Extend)", c_) or re.search(r"^serde_json::value::to_value", c_) or "serde_json::map::Map" in c_ and c_.endswith("::insert"):
+            ctx.inst("C19.R2", "write_outputs#through-json-map", "preserve_order" in feats2, "the outputs pass through a serde_json map (%s): it is ordered by key unless serde_json is built with preserve_order (features: %s)" % (c_[:90], sorted(feats2)), wom.loc(b))
+    ctx.inst("C19.R2", "write_outputs#serialiser-calls", True if n_ser >= 1 else None, "%d serialiser call(s) in write_outputs" % n_ser, None)
+    # an output is recorded only after its value was validated: validate_portable_value dominates every outputs.insert of the statement loop
+    for name_, f_ in sorted(cli.mir.items()):
+        if not (name_ == "blots::evaluate_source" or name_.startswith("blots::evaluate_source::{closure")):
+            continue
+        fnv = M.Fn(f_, name_)
+        vals_ = fnv.calls_to("blots_core::expressions::validate_portable_value")
+        k_ = 0
+        for b in fnv.call_blocks():
+            c_ = fnv.callee(b) or ""
+            if c_.endswith("::insert") and "IndexMap" in c_ and "SerializableValue" in " ".join(fnv.term(b).get("argtys") or []):
+                dom = any(fnv.dominates(v_, b) for v_ in vals_)
+                ctx.inst("C19.R2", "%s#insert-after-validation[%d]" % (name_.replace("blots::", ""), k_), dom if vals_ else None, "an output is inserted at %s; validate_portable_value dominates it: %s" % (fnv.loc(b), dom), fnv.loc(b))
+                k_ += 1
+    # the end-of-line comment slot of `statement` follows every kind of statement
+    from lib.peg import Grammar as G19
+    g19 = G19(ctx.grammar)
+    st19 = g19.seq(g19.expr("statement"))
+    firsts = {x["v"] for x in g19.walk(st19[0]) if x["k"] == "ident"} if st19 else set()
+    ok19 = len(st19) == 2 and st19[1]["k"] == "opt" and {"output_declaration", "expression"} <= firsts
+    ctx.inst("C19.R2", "grammar#statement-comment-slot", ok19, "statement = (%s) ~ comment?: %s (an `output` line that ends in a comment must parse like any other line)" % (sorted(firsts), ok19), "blots-core/src/grammar.pest")
     # outputs.insert happens in declaration order: inside the statement loop, no sorting of outputs anywhere in the cli
     sorts = [n for n, f in cli.mir.items() for b in M.Fn(f, n).calls_matching(lambda d: "IndexMap" in d and ("sort" in d or "reverse" in d or "swap" in d or "shift_remove" in d or "swap_remove" in d))]
     ctx.inst("C19.R2", "cli#no-reordering-of-outputs", not sorts, "IndexMap reordering calls in the CLI: %s" % sorts, None)
